@@ -18,6 +18,7 @@ alignment and children.
 """
 from __future__ import annotations
 
+import re
 from typing import Iterator, Optional
 
 
@@ -259,7 +260,8 @@ def looks_like_addressed_text(content: bytes) -> bool:
         text = content.decode("utf-8")
     except UnicodeDecodeError:
         return False
-    first = text.partition("\n")[0].strip()
+    # first line as a text reader with universal newlines sees it; blanks inside a record are tolerated by lenient readers
+    first = "".join(re.split("\r\n|\r|\n", text, maxsplit=1)[0].split())
     for rec in (ihex_record, srec_record):
         try:
             rec(first)
